@@ -757,6 +757,9 @@ class Vector():
 						target = target.with_nullable(True)
 						continue
 					required_kind = infer_dtype([val]).kind
+					if required_kind is target.kind:
+						# an instance of a subclass of the column kind (e.g. a named tuple in a tuple column)
+						continue
 					promotable = (
 						(target.kind is int and required_kind in (float, complex))
 						or (target.kind is float and required_kind is complex)
@@ -775,6 +778,9 @@ class Vector():
 					underlying = self._underlying
 				if target.nullable and not self._dtype.nullable:
 					self._dtype = self._dtype.with_nullable(True)
+			elif self._dtype is not None and not self._dtype.nullable and any(v is None for v in new_values):
+				# object columns accept anything, but None still makes them nullable
+				self._dtype = self._dtype.with_nullable(True)
 		# =====================================================================
 		# MUTATE — copy-on-write + fingerprint updates
 		# =====================================================================
